@@ -672,14 +672,10 @@ fn gen13(seed: u64, n: usize, out: &str) {
                     }
                     2 => "marks".to_string(),
                     3 if marking => "sqlmarks.0".to_string(),
-                    4 => "commit".to_string(),
-                    5 => {
-                        if crash {
-                            "ack".to_string()
-                        } else {
-                            "commithook".to_string()
-                        }
-                    }
+                    // a failing COMMIT needs a transaction that wrote something
+                    4 if crash || !cands.is_empty() => "commit".to_string(),
+                    5 if crash => "ack".to_string(),
+                    5 if !cands.is_empty() => "commithook".to_string(),
                     6 => {
                         if crash {
                             format!("gb.{}", g.below(msgs.len()))
@@ -697,10 +693,8 @@ fn gen13(seed: u64, n: usize, out: &str) {
                     }
                 };
                 applied = !wedged && crash && (p == "ack" || p == "acommit");
-                if !crash && (p == "marks" || p == "commit" || p.starts_with("sqlmarks")) {
-                    // the code as it is leaves the writer unusable after these: later batches only refer to rows known to exist
-                    wedged = true;
-                }
+                // (before the fix 6475b84 a failed marks write / COMMIT left the writer unusable; the generator no
+                //  longer assumes that: after such a fault the next batches run normally)
                 if crash {
                     wedged = false;
                 }
